@@ -17,6 +17,7 @@ package main
 //	     L let the loader take the lock and reach its first pool.Poll() ("polled") or finish ("pass-done")
 //	     S let the loader try-send the polled value: "moved polled" | "moved pass-done" | "unshift pass-done"
 //	     After every finished pass a token is posted (GetChannel) and the loader is awaited at afterClosedCheck.
+//	chqstress cap=K p=P k=C n=N mode=block|try|tmo|mix seed=S        ChannelQueue alone, free-running (see c07ChqStress)
 //	stress c=C b=B p=P k=K n=N mode=poll|take|chan|takeb seed=S     free-running producers/consumers/loader with monitors
 //	     observation: ok accepted=P*N delivered=P*N  (c ≥ 1)  |  ok safe  (c = 0: stranding is legitimate)  |  viol <kind> …
 
@@ -105,7 +106,13 @@ func c07Chq(capacity int, steps []string) string {
 			if closed {
 				return "skip"
 			}
-			return c07ShowErr(ch.PutWithTimeout(c07Arg(tok), 30*time.Millisecond))
+			// the timeout branch is expected only when the send cannot proceed; when it can, a long timeout keeps a
+			// descheduled thread (timer already expired when the select is finally evaluated) from flipping the result
+			d := 30 * time.Millisecond
+			if len(ch) < cap(ch) {
+				d = c07LongTimeout
+			}
+			return c07ShowErr(ch.PutWithTimeout(c07Arg(tok), d))
 		case strings.HasPrefix(tok, "U:"):
 			if closed || len(ch) >= cap(ch) {
 				return "skip"
@@ -114,7 +121,11 @@ func c07Chq(capacity int, steps []string) string {
 		case tok == "p":
 			return c07ShowVal(ch.Poll())
 		case tok == "t":
-			return c07ShowVal(ch.TakeWithTimeout(30 * time.Millisecond))
+			d := 30 * time.Millisecond
+			if len(ch) > 0 || closed {
+				d = c07LongTimeout
+			}
+			return c07ShowVal(ch.TakeWithTimeout(d))
 		case tok == "T":
 			if len(ch) == 0 && !closed {
 				return "skip"
@@ -186,6 +197,10 @@ func c07IdleDur() time.Duration {
 }
 
 const c07Wait = 5 * time.Second
+
+// c07LongTimeout is passed to PutWithTimeout / TakeWithTimeout when the harness has observed (len/cap of the real
+// channel) that the operation can complete at once: both select branches being ready is then practically impossible.
+const c07LongTimeout = 20 * time.Second
 
 func (m *c07Sched) sync() {
 	if m.lstate != 0 || m.broken {
@@ -283,7 +298,13 @@ func (m *c07Sched) step(tok string) (out string) {
 		if inpass {
 			return "skip"
 		}
-		return c07ShowVal(m.q.TakeWithTimeout(40 * time.Millisecond))
+		// the loader is parked, so nothing can arrive during the call: with a value in the channel the receive is
+		// immediately ready (long timeout: no false "timeout" on a loaded machine), without one the timeout fires
+		d := 40 * time.Millisecond
+		if len(m.handle) > 0 {
+			d = c07LongTimeout
+		}
+		return c07ShowVal(m.q.TakeWithTimeout(d))
 	case tok == "T":
 		if inpass || len(m.handle) == 0 {
 			return "skip"
@@ -352,7 +373,14 @@ func c07SchedRun(c, b int, steps []string) string {
 	ctl := NewCtl()
 	ctl.ParkAt("*", c07PtWoke)
 	ctl.ParkAt("*", c07PtPolled)
-	q := fpgo.NewBufferedChannelQueue[int](c, b, 10000).SetLoadFromPoolDuration(20 * time.Microsecond)
+	// node-pool size: every other case keeps no spare nodes and trims every 100 µs, so that the freeNodePool goroutine
+	// (Lock; KeepNodePoolCount) really runs between the steps and recycled nodes travel through the sync.Pool
+	hook := 10000
+	if len(steps)%2 == 1 {
+		hook = 0
+	}
+	q := fpgo.NewBufferedChannelQueue[int](c, b, hook).SetLoadFromPoolDuration(20 * time.Microsecond).
+		SetFreeNodeHookPoolIntervalDuration(100 * time.Microsecond)
 	m := &c07Sched{ctl: ctl, q: q}
 	m.handle = q.GetChannel() // also posts the first token
 	if !ctl.WaitAt("*", c07PtWoke, c07WaitDur()) {
@@ -397,7 +425,10 @@ func c07Stress(c, b, p, k, n int, mode string, seed int64) string {
 		})
 		defer ctl.Uninstall()
 	}
-	q := fpgo.NewBufferedChannelQueue[int](c, b, 64).SetLoadFromPoolDuration(durs[rng.Intn(len(durs))])
+	// node-pool size 0 / 1 / 64: with 0 or 1 the freeNodePool goroutine trims (under the lock) all the time
+	hooks := []int{0, 1, 64}
+	q := fpgo.NewBufferedChannelQueue[int](c, b, hooks[rng.Intn(len(hooks))]).SetLoadFromPoolDuration(durs[rng.Intn(len(durs))]).
+		SetFreeNodeHookPoolIntervalDuration(durs[1+rng.Intn(len(durs)-1)])
 	total := p * n
 	retry := c >= 1
 	var accepted, delivered, prodDone, panics, slow int64
@@ -685,6 +716,250 @@ waitProducers:
 	return fmt.Sprintf("ok accepted=%d delivered=%d", total, total)
 }
 
+// ---- ChannelQueue alone, free-running (review R3) ----
+//
+//	chqstress cap=K p=P k=C n=N mode=block|try|tmo|mix seed=S
+//	    P producers × N values through Put (blocking) / Offer (retried while full) / PutWithTimeout (retried on timeout),
+//	    C consumers through Take (blocking, released by closing the channel at the end) / Poll (retried while empty) /
+//	    TakeWithTimeout (retried on timeout); `mix` rotates the three by call index.  mode=try is generated only for
+//	    cap ≥ 1 (two non-blocking sides never meet on an unbuffered channel).
+//	    monitors: duplicate, phantom, lost, per-producer order per consumer (global FIFO for 1×1), len ≤ cap, panic,
+//	    no progress for 6 s;  observation: ok accepted=P*N delivered=P*N | viol <kind> …
+func c07ChqStress(capacity, p, k, n int, mode string, seed int64) string {
+	ch := fpgo.NewChannelQueue[int](capacity)
+	total := p * n
+	var accepted, delivered, panics int64
+	var lastProgress int64 = time.Now().UnixNano()
+	var violMu sync.Mutex
+	viol := ""
+	setViol := func(s string) {
+		violMu.Lock()
+		if viol == "" {
+			viol = s
+		}
+		violMu.Unlock()
+	}
+	pick := func(i int) int { // 0 blocking, 1 non-blocking, 2 with timeout
+		switch mode {
+		case "block":
+			return 0
+		case "try":
+			return 1
+		case "tmo":
+			return 2
+		}
+		return (i + int(seed)) % 3
+	}
+	// short and long timeouts, so that both branches of the timed selects are really taken (a timeout that has been
+	// reported must not have moved a value; a value that has been moved must not be reported as a timeout)
+	tmos := []time.Duration{20 * time.Microsecond, 200 * time.Microsecond, 5 * time.Millisecond}
+	tmo := func(i int) time.Duration { return tmos[i%len(tmos)] }
+	stop := make(chan struct{})
+	stopped := func() bool {
+		select {
+		case <-stop:
+			return true
+		default:
+			return false
+		}
+	}
+	var wg sync.WaitGroup
+	for t := 0; t < p; t++ {
+		wg.Add(1)
+		go func(t int) {
+			defer wg.Done()
+			defer func() {
+				if r := recover(); r != nil {
+					atomic.AddInt64(&panics, 1)
+				}
+			}()
+			for i := 0; i < n; i++ {
+				v := t*100000 + i
+				how := pick(i + t)
+				for {
+					var err error
+					switch how {
+					case 0:
+						err = ch.Put(v)
+					case 1:
+						err = ch.Offer(v)
+					default:
+						err = ch.PutWithTimeout(v, tmo(i+t))
+					}
+					if err == nil {
+						atomic.AddInt64(&accepted, 1)
+						atomic.StoreInt64(&lastProgress, time.Now().UnixNano())
+						break
+					}
+					if (how == 1 && err != fpgo.ErrQueueIsFull) || (how == 2 && err != fpgo.ErrQueuePutTimeout) || how == 0 {
+						setViol("viol producer-error " + err.Error())
+						return
+					}
+					if stopped() {
+						return
+					}
+					if how == 1 {
+						runtime.Gosched()
+						time.Sleep(10 * time.Microsecond)
+					}
+				}
+			}
+		}(t)
+	}
+	got := make([][]int, k)
+	var cwg sync.WaitGroup
+	for t := 0; t < k; t++ {
+		cwg.Add(1)
+		go func(t int) {
+			defer cwg.Done()
+			defer func() {
+				if r := recover(); r != nil {
+					atomic.AddInt64(&panics, 1)
+				}
+			}()
+			for i := 0; ; i++ {
+				if stopped() {
+					return
+				}
+				how := pick(i + t)
+				var v int
+				var err error
+				switch how {
+				case 0:
+					v, err = ch.Take()
+					if err == fpgo.ErrQueueIsClosed {
+						return
+					}
+				case 1:
+					v, err = ch.Poll()
+					if err == fpgo.ErrQueueIsEmpty {
+						runtime.Gosched()
+						time.Sleep(10 * time.Microsecond)
+						continue
+					}
+				default:
+					v, err = ch.TakeWithTimeout(tmo(i + t))
+					if err == fpgo.ErrQueueTakeTimeout {
+						continue
+					}
+				}
+				if err == fpgo.ErrQueueIsClosed && stopped() {
+					return
+				}
+				if err != nil {
+					setViol("viol consumer-error " + err.Error())
+					return
+				}
+				got[t] = append(got[t], v)
+				atomic.AddInt64(&delivered, 1)
+				atomic.StoreInt64(&lastProgress, time.Now().UnixNano())
+				if (len(got[t])+t)%16 == 0 { // let the channel fill up now and then: producers see Full / time out
+					time.Sleep(300 * time.Microsecond)
+				}
+				if l := len(ch); l > capacity {
+					setViol(fmt.Sprintf("viol bound len=%d cap=%d", l, capacity))
+				}
+			}
+		}(t)
+	}
+	pdone := make(chan struct{})
+	go func() { wg.Wait(); close(pdone) }()
+	idleDur := c07IdleDur()
+	idle := func() bool { return time.Since(time.Unix(0, atomic.LoadInt64(&lastProgress))) > idleDur }
+	stranded := false
+	producersDone := false
+	for !stranded {
+		if !producersDone {
+			select {
+			case <-pdone:
+				producersDone = true
+			case <-time.After(time.Millisecond):
+			}
+		} else if atomic.LoadInt64(&delivered) >= atomic.LoadInt64(&accepted) {
+			break
+		} else {
+			time.Sleep(200 * time.Microsecond)
+		}
+		if idle() {
+			stranded = true
+		}
+	}
+	close(stop)
+	if stranded {
+		atomic.AddInt32(&c07Lost, 1)
+		// drain so that blocked producers can leave, then give up on them
+		go func() {
+			for range ch {
+			}
+		}()
+		select {
+		case <-pdone:
+		case <-time.After(c07Wait):
+		}
+	} else {
+		<-pdone
+	}
+	func() {
+		defer func() { recover() }()
+		close(ch) // releases the consumers blocked in Take
+	}()
+	cw := make(chan struct{})
+	go func() { cwg.Wait(); close(cw) }()
+	select {
+	case <-cw:
+	case <-time.After(c07Wait):
+		return "viol consumers-stuck-after-close"
+	}
+	violMu.Lock()
+	res := viol
+	violMu.Unlock()
+	acc, del := int(atomic.LoadInt64(&accepted)), int(atomic.LoadInt64(&delivered))
+	if res == "" && atomic.LoadInt64(&panics) != 0 {
+		res = "viol panic"
+	}
+	if res == "" {
+		seen := map[int]bool{}
+		for t := 0; t < k && res == ""; t++ {
+			last := map[int]int{}
+			for _, v := range got[t] {
+				prod, seq := v/100000, v%100000
+				if v < 0 || prod >= p || seq >= n {
+					res = fmt.Sprintf("viol phantom value=%d", v)
+					break
+				}
+				if seen[v] {
+					res = fmt.Sprintf("viol duplicate value=%d", v)
+					break
+				}
+				seen[v] = true
+				if l, ok := last[prod]; ok && seq < l {
+					res = fmt.Sprintf("viol order producer=%d got %d after %d", prod, seq, l)
+					break
+				}
+				last[prod] = seq
+			}
+		}
+		if res == "" && k == 1 && p == 1 {
+			for i, v := range got[0] {
+				if v != i {
+					res = fmt.Sprintf("viol fifo position=%d got %d", i, v)
+					break
+				}
+			}
+		}
+	}
+	if res == "" && stranded {
+		res = fmt.Sprintf("viol stranded delivered=%d of %d accepted (of %d), no progress for %v", del, acc, total, idleDur)
+	}
+	if res == "" && (acc != total || del != total) {
+		res = fmt.Sprintf("viol lost accepted=%d delivered=%d of %d", acc, del, total)
+	}
+	if res != "" {
+		return res
+	}
+	return fmt.Sprintf("ok accepted=%d delivered=%d", total, total)
+}
+
 func c07Field(toks []string, k string) string {
 	for _, t := range toks {
 		if strings.HasPrefix(t, k+"=") {
@@ -716,6 +991,9 @@ func c07Run(line string) string {
 		return c07Chq(c07Int(toks, "cap"), steps)
 	case "sched":
 		return c07SchedRun(c07Int(toks, "c"), c07Int(toks, "b"), steps)
+	case "chqstress":
+		return c07ChqStress(c07Int(toks, "cap"), c07Int(toks, "p"), c07Int(toks, "k"), c07Int(toks, "n"), c07Field(toks, "mode"),
+			int64(c07Int(toks, "seed")))
 	case "stress":
 		return c07Stress(c07Int(toks, "c"), c07Int(toks, "b"), c07Int(toks, "p"), c07Int(toks, "k"), c07Int(toks, "n"),
 			c07Field(toks, "mode"), int64(c07Int(toks, "seed")))
@@ -862,7 +1140,33 @@ func c07Gen(tier string, rng *rand.Rand, emit func(string)) map[string]interface
 			nStress += 2
 		}
 	}
+	// 4. ChannelQueue alone under concurrent producers / consumers (blocking Put/Take included)
+	nChqStress := 0
+	cmodes := []string{"block", "try", "tmo", "mix"}
+	crounds, cn := 1, 1000
+	if thorough {
+		crounds, cn = 4, 4000
+	}
+	for r := 0; r < crounds; r++ {
+		for _, capacity := range []int{0, 1, 2, 7} {
+			for _, mode := range cmodes {
+				if capacity == 0 && mode == "try" {
+					continue
+				}
+				pp, kk := sizes[rng.Intn(4)], sizes[rng.Intn(4)]
+				nn := cn/pp + 1
+				if capacity == 0 && mode != "block" {
+					nn = 100/pp + 1 // rendezvous of two timed / non-blocking sides is slow by nature
+				}
+				emit(fmt.Sprintf("chqstress cap=%d p=%d k=%d n=%d mode=%s seed=%d", capacity, pp, kk, nn, mode, rng.Intn(1000000)))
+				nChqStress++
+			}
+		}
+		emit(fmt.Sprintf("chqstress cap=%d p=1 k=1 n=%d mode=%s seed=%d", 1+rng.Intn(3), cn, cmodes[rng.Intn(4)], rng.Intn(1000000)))
+		nChqStress++
+	}
 	return map[string]interface{}{
+		"chqstress_cases": nChqStress,
 		"exhaustive": false, "chq_cases": nChq, "sched_cases": nSched, "stress_cases": nStress,
 		"chq_scope":   fmt.Sprintf("all step sequences ≤%d over {Offer,Poll,Put,Take,close} for cap 0,1,2 + random ≤30 incl. timeouts", chqLen),
 		"sched_scope": fmt.Sprintf("8 hand-written windows + all step sequences ≤%d over {o,p,r,L,S,n} for 5 (c,b) + random ≤46 for c∈0..3 × b∈{0,1,2,5}", sl),
